@@ -1,2 +1,16 @@
 -- Root of the `SuxModel` library: imports every model, lemma and property module.
 import SuxModel.Base.Out
+import SuxModel.Base.Bits
+import SuxModel.Base.BitsLemmas
+import SuxModel.Base.Proto
+import SuxModel.Gen.Consts
+import SuxModel.BitVec.Model
+import SuxModel.BitVec.Spec
+import SuxModel.BitVec.Runner
+import SuxModel.BitVec.Lemmas
+import SuxModel.BitVec.LemmasRead
+import SuxModel.BitVec.LemmasIter
+import SuxModel.Props.C06
+import SuxModel.BitFieldVec.Model
+import SuxModel.BitFieldVec.Spec
+import SuxModel.BitFieldVec.Runner
